@@ -237,6 +237,9 @@ def _subs(tier, prop):
         S.append(mk_sub('F6-workorder', with_ops(serial('P', 1), [
             {'k': 'workorder', 'dev': 'p1', 't': 't0', 'tag': 'm'}, {'k': 'workorder', 'dev': 'p1', 't': 't0', 'tag': 'm'}],
             maint=True, durs={'m': 'w0'}), mons, zero=['cs']))
+        S.append(mk_sub('F6-fail-while-down', _faults_basic(1, [
+            {'k': 'shutdown', 'dev': 'p1', 't': 't0'}, {'k': 'armfail', 'dev': 'p1', 't': 't0', 'delay': 'd1'},
+            {'k': 'restore', 'dev': 'p1', 't': 't2'}]), mons, zero=['cs', 'c0'], pre=['t0 + d1 <= t2']))
         S.append(mk_sub('F5-capacity-change', with_ops(resources2(1), [
             {'k': 'addres', 'res': 'r', 'amount': 'a0', 't': 't0'}]), mons, zero=['cs', 'c0'], ranges={'a0': (-1, L.T)}))
     elif prop == 'C16':
@@ -245,6 +248,11 @@ def _subs(tier, prop):
         sp['devices'][0]['value'] = 'v0'
         sp['devices'][1]['addvalue'] = 'a1'
         S.append(mk_sub('F1-P-n2-values', sp, mons, zero=['cs'], ranges={'v0': (-L.T, L.T), 'a1': (-L.T, L.T)}))
+        spz = serial('P', 2)
+        spz['devices'][0]['value'] = 'v0'
+        spz['devices'][1]['addvalue'] = 'a1'
+        # zero cycle time: the part is processed (and revalued) inside the source's own hand-over call
+        S.append(mk_sub('F1-P-n2-values-zero-cycle', spz, mons, zero=['cs', 'c1'], ranges={'v0': (-L.T, L.T), 'a1': (1, L.T)}))
         sp2 = serial('PP', 2)
         sp2['devices'][0]['value'] = 'v0'
         sp2['devices'][1]['addvalue'] = 'a1'
